@@ -15,8 +15,28 @@ EPOCH = datetime(2024, 1, 1, tzinfo=timezone.utc)
 
 
 def load_class(qual):
+    if qual.startswith("ext:"):
+        mod, _, name = qual[4:].rpartition(".")
+        return getattr(importlib.import_module(mod), name)
     mod, name = qual.split(":")
     return getattr(importlib.import_module(mod), name)
+
+
+class Recorder:
+    """Stand-in for an external object we only talk to: records every method call."""
+
+    def __init__(self, **fields):
+        self.calls = []
+        self.__dict__.update(fields)
+
+    def __getattr__(self, name):
+        if name.startswith("__"):
+            raise AttributeError(name)
+
+        def method(*args, **kwargs):
+            self.calls.append((name, tuple(args)))
+            return None
+        return method
 
 
 def num(j):
@@ -71,7 +91,16 @@ def to_native(shape, j, opaque=None):
         cls = load_class(shape.cls)
         fields = j["fields"] if isinstance(j, dict) and "fields" in j else j
         kwargs = {f: to_native(s, fields.get(f), opaque) for f, s in shape.fields.items()}
+        if shape.cls.startswith("ext:"):
+            # library record: only the fields the contract names are populated
+            obj = object.__new__(cls)
+            for f, v in kwargs.items():
+                object.__setattr__(obj, f, v)
+            return obj
         return cls(**kwargs)
+    if k == "extobj":
+        fields = j["fields"] if isinstance(j, dict) and "fields" in j else (j or {})
+        return Recorder(**{f: to_native(s, fields.get(f), opaque) for f, s in shape.fields.items()})
     if k == "obj":
         cls = load_class(shape.cls)
         obj = object.__new__(cls)
@@ -98,6 +127,10 @@ def to_native(shape, j, opaque=None):
         if shape.container == "tuple":
             return tuple(vals)
         return vals
+    if k == "set":
+        items = (j.get("set") or j.get("list") or []) if isinstance(j, dict) else j
+        vals = [to_native(shape.elem, x, opaque) for x in items]
+        return frozenset(vals) if shape.frozen else set(vals)
     if k in ("setseq", "keyset"):
         items = j["list"] if isinstance(j, dict) else j
         return {to_native(shape.elem, x, opaque) for x in items}
@@ -167,12 +200,14 @@ def gen_json(shape, rng: random.Random, seeds=None, size=3):
         return {"delta_us": rng.randint(0, 20) * 250000}
     if k == "qty":
         return {"qty": shape.unit, "v": real()}
-    if k in ("rec", "obj"):
+    if k in ("rec", "obj", "extobj"):
         return {"fields": {f: gen_json(s, rng, seeds, size) for f, s in shape.fields.items()}}
     if k == "tup":
         return {"tuple": [gen_json(s, rng, seeds, size) for s in shape.items]}
     if k == "fixedlist":
         return {"list": [gen_json(s, rng, seeds, size) for s in shape.items]}
+    if k == "set":
+        return {"set": sorted({rng.randint(0, 5) for _ in range(rng.randint(0, 4))})}
     if k == "dictopt":
         return {"dict": [[_key_json(key), gen_json(vs, rng, seeds, size)] for key, vs in shape.entries.items()
                          if key in shape.always or rng.random() < 0.6]}
